@@ -148,11 +148,19 @@ class KC:
         outarray.fn = g
 
 
+TRUNC = z3.Function("TRUNC", RealS, IntS)   # abstract float->integer store (used by the streaming harnesses)
+ABSTRACT_CAST = [True]
+
+
 def cast_store(t, dt):
     """store of a float64 value into an array of dtype dt (numba: truncation toward zero for integers;
-    out-of-range results are outside the exactness premise)"""
+    out-of-range results are outside the exactness premise).  The streaming harnesses only need
+    *which value* is stored where, so there the conversion is an uninterpreted function (congruence
+    decides equality); the contract establishment (symx.contracts) uses the concrete formula."""
     if dt in ("f4", "f8"):
         return t
+    if ABSTRACT_CAST[0]:
+        return TRUNC(t)
     fl = z3.ToInt(t)
     return z3.If(z3.Or(t >= 0, z3.ToReal(fl) == t), fl, fl + 1)
 
@@ -163,6 +171,7 @@ def _write_through(arr, g):
         wt(arr.length, g)
     else:
         arr.fn = g
+        arr.snap = None     # the kernel's result is the content of this array object from now on
 
 
 class RecStats:
@@ -208,22 +217,39 @@ class SymList:
         return f
 
 
-class NPbase:
-    """numpy names used by base.py on functional arrays (trusted stubs)"""
-    float32 = np.float32
-    uint8 = np.uint8
+class _F32:
+    """np.float32(mask_value): only .astype(dtype) is used on it"""
 
-    @staticmethod
-    def zeros(shape, dtype=None):
-        zero = z3.RealVal(0)
+    def __init__(self, v):
+        self.v = v
+
+    def astype(self, dt):
+        return self.v
+
+
+class _NPbase:
+    """numpy names used by base.py on functional arrays (trusted stubs); anything else is real numpy"""
+
+    def __getattr__(self, n):
+        return getattr(np, n)
+
+    class _F32T:
+        _symx_dt = "f4"
+
+        def __call__(self, v):
+            return _F32(v) if is_sym(v) else np.float32(v)
+
+    float32 = _F32T()
+
+    def zeros(self, shape, dtype=None):
         import symx.arrays as A
+        if not is_sym(shape) and not isinstance(shape, tuple):
+            pass
         dt = A._dt(dtype)
-        if dt not in ("f4", "f8"):
-            zero = z3.IntVal(0)
+        zero = z3.RealVal(0) if dt in ("f4", "f8") else z3.IntVal(0)
         return FArr(shape, lambda k: zero, dt, "zeros")
 
-    @staticmethod
-    def empty(shape, dtype=None):
+    def empty(self, shape, dtype=None):
         import symx.arrays as A
         dt = A._dt(dtype)
         Ctx.cur.nfresh += 1
@@ -232,19 +258,18 @@ class NPbase:
         a.uninit = g
         return a
 
-    @staticmethod
-    def array(x, *a, **k):
-        return x
+    def array(self, x, *a, **k):
+        if isinstance(x, (SymList, FArr)):
+            return x
+        return np.array(x, *a, **k)
 
-    @staticmethod
-    def ceil(x):
+    def ceil(self, x):
         if isinstance(x, SReal):
             return SReal(z3.ToReal(x.ceil().e))
         return np.ceil(x)
 
-    @staticmethod
-    def arange(n, dtype=None):
-        return SymList(list(range(int(n))))
+
+NPbase = _NPbase()
 
 
 class HdrBytes:
